@@ -44,7 +44,7 @@ def run(c):
                     r2, _ = c.run_worker(fam, [(sc, d[sc])], parallel=1, env=env)
                     if (r2.get(sc) or [{}])[0].get("agree", True):
                         raise vf.FrameworkError("disagreement not reproduced")
-                c.report(key, "; ".join(ev.get("bad") or []), {"case": case, "results": ev.get("results")})
+                c.report(key, "; ".join(ev.get("bad") or []), dict({"case": case, "results": ev.get("results")}, **c.rp(fam, d[sc])))
         for sc, dd in deaths.items():
             c.report("death:%s:%s" % (fam, dd["kind"]), "process died verifying an image signature", {"case": json.loads(d[sc]), "death": dd})
         if stats["n"] != len(items) and not c.violations:
